@@ -205,7 +205,7 @@ fn decls_of_ops(ops: &[Op]) -> Vec<Decl> {
     out
 }
 fn cq_decl(d: &Decl) -> String {
-    format!("(mk_decl {} {} {} {})", coq_n(d.section as u64), coq_str(&d.local), coq_str(&d.schema), coq_opt(&d.body, |b| coq_str(b)))
+    format!("(mk_odecl {} {} {} {})", coq_n(d.section as u64), coq_str(&d.local), coq_str(&d.schema), coq_opt(&d.body, |b| coq_str(b)))
 }
 
 fn config_with(cfg: &[(String, SCfg)]) -> Config {
@@ -889,10 +889,10 @@ fn main() {
                     "result": match &sk { Ok(d) => json!({"decls": d.iter().map(|x| json!([x.section, x.local, x.schema, x.body])).collect::<Vec<_>>()}), Err(e) => json!({"err": e}) }});
                 if samples.len() < 4 { samples.push(json!({"kind":"skeleton","n_decls": sk.as_ref().map(|d| d.len()).unwrap_or(0), "n_files": p.n_files, "scalarTypes": p.cfg.len()})); }
                 cases.push(t, dj);
-                gen_term = match &sk { Ok(d) => format!("(GOk {})", coq_list(d, cq_decl)), Err((k, n)) => format!("(GPrintError ({} {}))", if k == "ScalarTypeNotProvided" { "ScalarTypeNotProvided" } else { "LocalNameMissing" }, coq_str(n)) };
+                gen_term = match &sk { Ok(d) => format!("(OOk {})", coq_list(d, cq_decl)), Err((k, n)) => format!("(OPrintError ({} {}))", if k == "ScalarTypeNotProvided" { "ScalarTypeNotProvided" } else { "LocalNameMissing" }, coq_str(n)) };
                 gen_json = json!({"skeleton_ok": sk.is_ok()});
             }
-            Err(e) => { let dbg = format!("{:?}", e.message); gen_term = format!("(GResolveError {})", cq_xerr(&dbg)); gen_json = json!({"err": dbg}); }
+            Err(e) => { let dbg = format!("{:?}", e.message); gen_term = format!("(OResolveError {})", cq_xerr(&dbg)); gen_json = json!({"err": dbg}); }
         }
         let t = format!("CGen {} {} {} {}", cq_cfg(&p.cfg), coq_list(&per_file, |f| cq_items(f)), cq_items(&builtins), gen_term);
         distinct.insert(fnv(&t));
